@@ -1,4 +1,5 @@
 """C10 — parsing is total, has a closed error contract and keeps no sticky state."""
+import re
 import sys
 
 import common
@@ -31,7 +32,7 @@ def malformed(rnd, n):
     return out
 
 
-CORPUS = ["", " ", "(", ")", "()", "(()", "x)", "sgn", "sgn(", "sgn()", "sgn x", "!", "x!", "5!!", "^", "x^", "^x", "2^", "=", "x=", "=x", "x==y", "1.2.3", ".", "..", "1..2",
+CORPUS = ["", " ", "(", ")", "()", "(()", "x)", "sgn", "sgn(", "sgn()", "sgn x", "!", "x!", "5!!", "^", "x^", "^x", "2^", "=", "x=", "=x", "x==y", "1.2.3", ".", "..", "1..2", "1..", "1.2.", ".5.", "2^3..", "sgn(4..)", "8.. + 1", "3.", "x + 1..", "(1.2.3)",
           "x +", "+ x", "x + + y", "x - - y", "x * / y", "*", "/", "x /", "- ", "--x", "-", "2 3", "x 2", "2 x", "(x", "((x))", "[x)", "(x]", "x y )", "4!x", "sgn(x", "sgn(x))",
           "9" * 50, "x" * 60, "(" * 30 + "x" + ")" * 30, "-" * 5 + "x", "1e5", "0x10", "x_1", "3,4", "½"]
 
@@ -78,6 +79,15 @@ def run(ctx):
             res.failures.append(dict(**{"class": "malformed-tree"}, input=dict(text=s), detail=py[1]))
         elif py[0] == "EXC" and py[1] not in ALLOWED:
             res.failures.append(dict(**{"class": "internal-error"}, input=dict(text=s), detail=f"{py[1]} escaped ExpressionParser.parse"))
+        # "... or ValueError for an unsupported character or malformed number": a string with an unsupported character always raises
+        # ValueError (theorem C10_unsupported_character); one with a malformed number never parses (every constant token of a successful
+        # parse has been converted) and raises ValueError unless a syntax error is met first (seed C10-D accepted `1..` as 1)
+        bad_run = any(r.count(".") >= 2 or r == "." for r in re.findall(r"[0-9.]+", s))
+        unsupported = any(not (c.isascii() and (c.isalnum() or c in "+-*/^!=()[]. \t\n\r")) and c != "\u2013" for c in s)
+        if unsupported and py != ("EXC", "ValueError"):
+            res.failures.append(dict(**{"class": "unsupported-character-not-ValueError"}, input=dict(text=s), detail=f"{py[0]} {py[1] if py[0] == 'EXC' else ''}"))
+        elif bad_run and py[0] == "OK":
+            res.failures.append(dict(**{"class": "malformed-number-accepted"}, input=dict(text=s), detail=f"parsed to {P.sx_text(py[1])}"))
         if py[0] == "EXC" and len(s) > 3:
             res.sample(dict(text=s, raises=py[1]))
     c12.check_histories(ctx, ctx.n(1200, 20000), "history")
